@@ -11,16 +11,16 @@ T={
  'C04':("reference unescape comparison over exhaustive escape tables and length x offset layouts, inputs in guard-page mappings","harness/ref unescaper; mmap/mprotect guard pages fault on any out-of-bounds access by the assembly"),
  'C05':("crash/fault/deadlock monitoring of hostile inputs: recover(), guard pages, Go runtime deadlock detector, goroutine-leak and channel-drain monitors, race build","process supervision by the controller; guard pages; the runtime's deadlock detector (plain, cgo-free build)"),
  'C06':("differential execution of the AVX2 and AVX-512 kernels (cpuid feature bit toggled at run time)","AVX2 behaviour is obtained by clearing AVX512F in the cpuid feature set on this AVX-512 CPU"),
- 'C07':("hook-driven forced schedules with online shadow-ownership monitor of the index-buffer ring, content and history checkers, runtime deadlock detector, race detector","verif hook points; schedules are forced only at the hooks"),
+ 'C07':("hook-driven forced schedules x parser histories with online shadow-ownership monitor of the index-buffer ring, content and history checkers, runtime deadlock detector, race detector","verif hook points; schedules are forced only at the hooks"),
  'C08':("per-line Parse + reference-tree oracle over enumerated and generated NDJSON inputs","Parse as the acceptance oracle (as the property is phrased) plus harness/ref for the documents"),
  'C09':("recorded-stream oracle under adversarial readers, injected reader errors, hook-forced chunk completion orders; runtime deadlock detector and race detector","verif chunk hooks; fragmenting/failing reader written for the purpose"),
  'C10':("validity + same-document + fixed-point oracles on marshalled text of fresh and edited tapes","harness/ref recogniser and value builder"),
- 'C11':("model comparison of serialize/deserialize round trips under seeded serializer/destination histories; cross-build check against a noasm worker; race slice","harness/ref; typed canonical dumps compared across builds"),
+ 'C11':("model comparison of serialize/deserialize round trips under seeded serializer/destination histories, kept-blob integrity monitor; cross-build check against a noasm worker; race slice","harness/ref; typed canonical dumps compared across builds"),
  'C12':("model-based checking of lookups, filtered iteration and bulk accessors with a math/big conversion oracle","harness/ref tree; math/big conversion rules as stated in the property"),
  'C13':("model-based history checking: seeded Set* sequences, reader matrix and tape checker after every operation","harness/ref tree as mutable model"),
  'C14':("model-based history checking: exhaustive member-subset deletions and seeded edit histories, callback monitor, reader matrix after every step","harness/ref tree as mutable model"),
- 'C15':("differential execution: every call on reused objects against the same call on fresh objects, plus input-overwrite and channel-drain monitors; race slice","fresh objects as the oracle"),
- 'C16':("before/after snapshot monitoring across input overwrites, clone/original edit isolation, stream values","all read routes agree with the model before the overwrite"),
+ 'C15':("differential execution: every call on reused objects (well-formed and malformed inputs and blobs) against the same call on fresh objects, incl. the exported Tape/Strings.B, plus input-overwrite and channel-drain monitors; race slice","fresh objects as the oracle"),
+ 'C16':("before/after snapshot monitoring across input overwrites, input-integrity monitors (the library never writes into a caller's buffer), clone/original edit isolation, stream values","all read routes agree with the model before the overwrite"),
  'C17':("independent one-pass tape invariant checker at quiescent points (after Parse, ParseND, edits, Deserialize)","harness/tapecheck, self-tested on hand-corrupted tapes at every run"),
  'C18':("differential oracle against encoding/json plus independent round-trip/shortest-digit/format checks over stratified float64 bit patterns","encoding/json and strconv"),
  'C19':("fault injection into serialized blobs (truncation, bit flips, splices, framing-preserving structural mutation) with panic/fault/deadlock/resource-bound monitors","harness re-framer checked on unmutated blobs; resource bound 1 GiB live heap during traversals"),
